@@ -280,6 +280,7 @@ func (w *Writer) buildMapNode(v map[string]any) (n *node) {
 		} else {
 			w.buf = ojg.AppendJSONString(w.buf, k, !w.HTMLUnsafe)
 		}
+		mn.raw = k
 		mn.key = make([]byte, len(w.buf))
 		copy(mn.key, w.buf)
 		if 2 < n.size {
@@ -325,6 +326,7 @@ func (w *Writer) buildGenMapNode(v gen.Object) (n *node) {
 		} else {
 			w.buf = ojg.AppendJSONString(w.buf, k, !w.HTMLUnsafe)
 		}
+		mn.raw = k
 		mn.key = make([]byte, len(w.buf))
 		copy(mn.key, w.buf)
 		if 2 < n.size {
